@@ -46,3 +46,21 @@ for label, nets in [
 ]:
     try: print(label, '->', rd(nets))
     except Exception as e: print(label, '-> raises', type(e).__name__, str(e)[:90])
+# ---- found by the whole-file reader model (Fmt/EdifFile.v) and its tie (harness/edif_file.py) ----
+def rdfile(text):
+    d = tempfile.mkdtemp(); p = os.path.join(d, 'i.edf'); open(p, 'w').write(text); return sdn.parse(p)
+W = '''(edif n (edifVersion 2 0 0) (edifLevel 0) (keywordMap (keywordLevel 0)) (library work (edifLevel 0) (technology (numberDefinition))
+ (cell leaf (cellType GENERIC) (view netlist (viewType NETLIST) (interface (port a (direction INPUT)))))
+ (cell t (cellType GENERIC) (view netlist (viewType NETLIST) (interface %s) (contents %s)))) (design t (cellRef t (libraryRef work)))%s'''
+for label, f in [
+  ('K14 (instance u1) without viewRef is accepted, reference stays None (C15: half-built netlist returned)',
+   lambda: [(c.name, c.reference) for c in rdfile(W % ('(port x (direction INPUT))', '(instance u1)', ')')).libraries[0].definitions[1].children]),
+  ('K15 (array y -2) accepted: array port without pins',
+   lambda: [(p.name, len(p.pins), p.is_array) for p in rdfile(W % ('(port (array y -2) (direction OUTPUT))', '', ')')).libraries[0].definitions[1].ports]),
+  ('K16 a library declared AFTER the design construct is silently dropped',
+   lambda: [l.name for l in rdfile((W % ('(port x (direction INPUT))', '', '')) + ' (library later (edifLevel 0) (technology (numberDefinition))))').libraries]),
+  ('K16 nothing after (design n (cellRef c (libraryRef l is read: a file missing its last two ")" and carrying garbage is accepted',
+   lambda: rdfile((W % ('(port x (direction INPUT))', '', '')).replace('(libraryRef work)))', '(libraryRef work)) garbage ( ( "unterminated')).top_instance.reference.name),
+]:
+    try: print(label, '->', f())
+    except Exception as e: print(label, '-> raises', type(e).__name__, str(e)[:90])
